@@ -135,8 +135,12 @@ def g_prop(explanation, features=None, uncovered=None, extra_assumptions=(), ker
     def f(prop, tier, seed):
         obs, infos = K.run_property(prop, tier, features)
         if kernels:
-            o2, i2 = K.run_kernels(prop)
-            obs.extend(o2); infos.append(i2)
+            try:
+                o2, i2 = K.run_kernels(prop)
+                obs.extend(o2); infos.append(i2)
+            except Undecided as u:
+                # a kernel that changed shape is undecided on its own; it must not hide refutations elsewhere
+                obs.append(Ob("%s.KT.kernels" % prop, "KT", "undecided", str(u)[:600]))
         if not obs:
             raise Undecided("no obligation registered for %s in tier %s" % (prop, tier))
         fixtures = sorted(set(o.extra.get("fixture", "") for o in obs if o.extra.get("fixture")))
